@@ -862,7 +862,7 @@ impl<'a> FormatParser<'a> {
                     Field::DayName(NameStyle::Lower)
                 }
             };
-        } else if remain.len() >= 2 {
+        } else if CaseInsensitive::starts_with(remain, b"dy") {
             return match &remain[0..2] {
                 b"DY" => {
                     self.advance(2);
